@@ -366,6 +366,9 @@ def MState.setPrep (m : MState) (k : Nat) (p : Prepared) : MState :=
 /-- prepared-query paths go through the cached archetype list (C17) -/
 def preparedAnswer (m : MState) (n : String) (w : World) (k : Nat) (q : Q) (path : String) (args : List String) :
     MState × String :=
+  match QueryJudge.aliasAnswer q path none (QueryJudge.dynConflict w q) with
+  | some a => (m, a)        -- refused by `assert_borrow` before the memo is looked at (or mid-acquisition: the history ends)
+  | none =>
   let p := (m.prep k).refresh (m.widOf n) w q
   let m' := m.setPrep k p
   let hs := ((field args "hs").bind entities?).getD []
@@ -465,6 +468,16 @@ def outOfContract (lhs : String) : Bool :=
       | some path, some es => path.startsWith "many_" && es.eraseDups.length != es.length
       | _, _ => false
     | _ => false
+  | _ => false
+
+/-- a query line whose query aliases a unique borrow within itself (its panics are judged by `specLine`) -/
+def aliasingQueryLine (lhs : String) : Bool :=
+  let toks := (lhs.trimAscii.toString.splitOn " ").filter (· ≠ "")
+  match toks with
+  | "query" :: _ :: args =>
+    match (field args "q").bind QueryJudge.parseShape with
+    | some q => !q.assertBorrowOk
+    | none => false
   | _ => false
 
 /-- bring the implementation's answer into the canonical form the model is rendered in -/
